@@ -1,10 +1,12 @@
 import Pkgcore.Base.Proto
 import Pkgcore.Spec.C07
+import Pkgcore.Driver.C02
 /-!
 C07 driver.  Restrictions travel as JSON objects with a class tag `c`:
 `exact{s,cs,n,h}`, `glob{s,p,n,i,h}`, `regex{s,n,i,m,h}`, `contain{vals,all,n}`, `usedef{m,vals,n}`, `flatten{d,r,n}`,
-`func{f,n}`, `strconv{r}`, `version{vals,d,n,ver,rev}` (`rev` null or the Revision text), `obj{id}`,
-`pkg{cls,multi,attrs,n,r}`, `cond{attr,n,r,payload}`, `bool{k,t,n,cs}`, `atom{key,strong}`, `depset{cs}`.
+`func{f,n}`, `strconv{r}`, `version{vals,d,n,ver,rev}` (`rev` null or the Revision text), `verglob{ver,rev}`, `obj{id}`,
+`pkg{cls,multi,attrs,n,r}`, `cond{attr,n,r,payload}`, `bool{k,t,n,cs}`, `atom{a}` (`a` = an atom in the C02 driver's format: cat, pkg, op, ver, rev, blocks, strong, negate, slot, subslot,
+slotop, use, repo), `depset{cs}`.
 Values: `str{s}`, `strs{xs}`, `tuple{xs}`, `pkg{fields:[[name,V]…], ver:null|{ver,rev}}`, `other{id}`.
 
 * `c07.pair {a,b}` → `{eq, eqrev, hk, wfa, wfb}`
@@ -57,6 +59,13 @@ partial def parseR (j : Json) : Option Restr := do
       | .ok .null => some none
       | _ => none
     pure (.version vals (← getBool j "d") (← getBool j "n") ver rev)
+  | "verglob" => do
+    let ver ← (j.getObjVal? "ver").toOption >>= parseVer
+    let rev : Pkgcore.C01.Rev ← match j.getObjVal? "rev" with
+      | .ok (.str s) => some (some s.toList)
+      | .ok .null => some none
+      | _ => none
+    pure (.verGlob ver rev)
   | "obj" => pure (.obj (← getNat j "id"))
   | "pkg" => do
     let attrs ← (← getArr j "attrs").mapM fun a => match a with
@@ -65,7 +74,7 @@ partial def parseR (j : Json) : Option Restr := do
     pure (.pkgRestr (← getNat j "cls") (← getBool j "multi") attrs (← getBool j "n") (← sub "r"))
   | "cond" => pure (.conditional (← strsOf j "attr") (← getBool j "n") (← sub "r") (← subs "payload"))
   | "bool" => pure (.bool (← (getStr j "k") >>= kindOf) (← getNat j "t") (← getBool j "n") (← subs "cs"))
-  | "atom" => pure (.atom (← strsOf j "key") (← getBool j "strong"))
+  | "atom" => pure (.atom (← (j.getObjVal? "a").toOption >>= Pkgcore.Driver.C02.parseAtom))
   | "depset" => pure (.depset (← subs "cs"))
   | _ => none
 
@@ -91,7 +100,7 @@ partial def parseV (j : Json) : Option Value := do
 
 /-- does the driver's environment cover everything `r` needs? -/
 partial def concrete : Restr → Bool
-  | .strExact .. | .strGlob .. | .contain .. | .useDefault .. | .version .. => true
+  | .strExact .. | .strGlob .. | .contain .. | .useDefault .. | .version .. | .verGlob .. => true
   | .strRegex .. | .func .. | .obj _ | .atom .. | .flatten .. | .strConv _ => false
   | .pkgRestr _ _ _ _ c => concrete c
   | .conditional _ _ c _ => concrete c
